@@ -48,12 +48,13 @@ pub fn spec(id: &str, tier: Tier) -> Option<CheckSpec> {
                 "both '/' and '\\' are separators; a component keeps the separator that followed it".into(),
                 "paths needing more than 60 stacked components are outside C13 (see C12)".into(),
             ];
-            s.bounds = json!({"ascii_len": tier.pick(9, 11), "utf8_len": tier.pick(7, 9), "deep_components": "55..=63"});
+            s.bounds = json!({"ascii_len": tier.pick(9, 12), "utf8_len": tier.pick(7, 10), "deep_components": "55..=63"});
             s
         }
         "C15" => {
             let mut s = CheckSpec::new("exploration", tier);
             s.jobs = eng_depfile::jobs(tier);
+            s.jobs.extend(eng_hist::jobs("C15", tier));
             s.rule = "abstract depfiles (1 entry x <=3 prerequisites, 2 entries x <=2, 3 entries x <=1, over 3 targets and 4 prerequisite spellings incl. Windows-style paths) under every formatting (1 entry x <=2 prerequisites) or every formatting with a bounded number of deviations from the canonical one (otherwise), read through the real read_depfile from a real file and compared with the listed prerequisites in order; every string up to length N over {a,space,:,\\,newline} and a NUL/CR/UTF-8 alphabet for totality and well-formed diagnostics; the real file path for all strings up to a smaller bound (error must name the depfile). Non-trivial = at least one prerequisite, or a rejected input.".into();
             s.assumptions = vec!["words are separated by at least one blank or a backslash-newline, as compilers write them".into()];
             s.bounds = json!({"format_deviations": tier.pick(2, 3), "string_len": tier.pick(9, 10), "odd_len": tier.pick(5, 6), "file_len": tier.pick(6, 7)});
@@ -62,9 +63,10 @@ pub fn spec(id: &str, tier: Tier) -> Option<CheckSpec> {
         "C20" => {
             let mut s = CheckSpec::new("exploration", tier);
             s.jobs = eng_render::jobs(tier);
+            s.jobs.extend(eng_proc::jobs("C20", tier));
             s.rule = "task_message for every width 10..=300 x 15 elapsed times x messages placing a 1/2/3/4-byte character at every offset around the cut index with total lengths w-1,w,w+1,w+10,4w; every string of <= N characters over {a,é,€,😀} at widths 10..14; truncate at every alignment for max 0..=300; progress_bar for every count vector with entries 0..=B over the six states at 8 bar sizes (plus scaled vectors); whole frames through the real print_progress at forced widths 10..=300. Non-trivial = the message had to be cut / at least two non-zero counts.".into();
             s.assumptions = vec!["the display thread's Mutex/Condvar/timeout protocol is not explored (loom does not model wait_timeout_while); the property's content is the totality of the renderers".into()];
-            s.bounds = json!({"short_len": tier.pick(6, 7), "bar_max_count": tier.pick(5, 7)});
+            s.bounds = json!({"short_len": tier.pick(6, 8), "bar_max_count": tier.pick(5, 7)});
             s
         }
         "C10" => {
@@ -90,7 +92,7 @@ pub fn spec(id: &str, tier: Tier) -> Option<CheckSpec> {
             let mut s = CheckSpec::new("exploration", tier);
             s.jobs = eng_load::jobs_c14(tier);
             s.rule = "a first build statement with every list of 1..3 outputs over 6 spellings {x,./x,d/../x,y,./y,x/} at every explicit/implicit split, alone and followed by a second statement (1..2 outputs, same file / included file / subninja'd before) and a third (1 output); expected per reference loader: error citing both statements iff two statements produce one location, otherwise accepted with a warning iff an output repeats, outputs unique, explicit count consistent. Non-trivial = rejected manifests and manifests with a repeated output.".into();
-            s.bounds = json!({"first_statement_outputs": 3, "second": 2, "third": 1});
+            s.bounds = json!({"first_statement_outputs": tier.pick(3, 4), "second": 2, "third": 1});
             s
         }
         "C12" => {
@@ -103,7 +105,8 @@ pub fn spec(id: &str, tier: Tier) -> Option<CheckSpec> {
                 "the `random mutation / raw bytes` tail of the quantifier is replaced by the systematic single/double mutations and short byte strings".into(),
             ];
             s.bounds = json!({"token_seq_len": tier.pick(5, 6), "byte_len": tier.pick(2, 3), "mutation_depth": tier.pick(1, 2), "include_seq_len": tier.pick(3, 4), "target_len": tier.pick(6, 7)});
-            s.hang_secs = 20;
+            s.hang_secs = 8;
+            s.max_restarts = 16;
             s
         }
         "C16" => {
@@ -122,6 +125,9 @@ pub fn spec(id: &str, tier: Tier) -> Option<CheckSpec> {
             let mut s = CheckSpec::new("model_checking", tier);
             s.jobs = eng_sched::jobs(id, tier);
             s.jobs.extend(eng_proc::jobs(id, tier));
+            if id == "C19" {
+                s.jobs.extend(eng_hist::jobs("C19", tier));
+            }
             s.rule = format!("stateless exhaustive exploration of the real run::build under a gated, scripted executor: for every scenario of the families {:?} (abstract project -> generated manifest loaded by the real loader; initial state fresh or fully built then edited; per-step command outcome; -j/-k/targets) every sequence of choices (which running command finishes next; in which order newly ready dependents are visited) is executed and the property's trace monitor is evaluated against the abstract project and the reference model. States = explorer nodes (scenario, choice prefix), transitions = choice points taken, non-trivial = distinct traces with at least two command starts.", s.jobs.iter().map(|j| j.0.clone()).collect::<Vec<_>>());
             s.assumptions = vec![
                 "commands are scripted: they write only their outputs/depfile, with mtimes from a logical clock".into(),
@@ -144,7 +150,7 @@ pub fn spec(id: &str, tier: Tier) -> Option<CheckSpec> {
             if id == "C09" || id == "C02" || id == "C03" {
                 s.jobs.extend(eng_proc::jobs(id, tier));
             }
-            s.rule = format!("exhaustive walk of the history tree of the templates {:?}: a history alternates edit sets (every single edit of the template's alphabet: touch each source/header, delete/touch each output and intermediate, delete a header, delete a declared source, change what a compiler reports, replace the manifest by each variant / let the generator write each variant; thorough: also all compatible pairs in the first round) and invocations (build default / each single target / every completion order at -j2 / build with each failing command, with -k1 / n2 killed after 1-2 completions leaving fresh garbage / restat) to depth {}; each invocation runs the real loader, db and scheduler on a real tree under the scripted executor, and is judged against the reference model: everything that ran was dirty, after success everything wanted is clean and carries the content tag a from-scratch evaluation gives, an identical repeat does nothing. States = history nodes, transitions = invocations, non-trivial = invocations judged without violation after a non-empty history step.", s.jobs.iter().map(|j| j.0.clone()).collect::<Vec<_>>(), tier.pick(2, 3));
+            s.rule = format!("exhaustive walk of the history tree of the templates {:?}: a history alternates edit sets (every single edit of the template's alphabet: touch each source/header, delete/touch each output and intermediate, delete a header, delete a declared source, change what a compiler reports, replace the manifest by each variant / let the generator write each variant; thorough: also all compatible pairs in the first round) and invocations (build default / each single target / every completion order at -j2 / build with each failing command, with -k1 / n2 killed after 1-2 completions leaving fresh garbage / restat) to depth {}; each invocation runs the real loader, db and scheduler on a real tree under the scripted executor, and is judged against the reference model: everything that ran was dirty, after success everything wanted is clean and carries the content tag a from-scratch evaluation gives, an identical repeat does nothing. States = history nodes, transitions = invocations, non-trivial = invocations judged without violation after a non-empty history step.", s.jobs.iter().map(|j| j.0.clone()).collect::<Vec<_>>(), tier.pick("2 (round two: builds and restat only), from the never-built and from the fully built tree", "2 (full alphabet in both rounds; plus all compatible edit pairs in round one) and 3 (single edits, reduced invocation alphabets), from the never-built and from the fully built tree"));
             s.assumptions = vec![
                 "a content change comes with an mtime change (logical clock), nothing else writes the tree during a build, phony aliases are not used as dirtying inputs".into(),
                 "commands are scripted; inside an invocation the completion order is the default one at -j1 except for the all-orders invocation of the first round".into(),
@@ -211,6 +217,7 @@ pub fn abort_is_violation(prop: &str, job: &str) -> bool {
         ("C13", "canon") => true,
         ("C20", "render") => true,
         ("C15", "depfile") => true,
+        ("C16", "proc") => true,
         _ => false,
     }
 }
